@@ -112,6 +112,11 @@ func runC16(p *Prog, r *Report) {
 	recvLimitRules(p, r, "C16.3/recv-limit")
 	r.Describe("C16.5/handshaker", "handshakes run on their own goroutine (a slow or silent peer never delays the accept loop); failed and late handshakes are closed")
 	handshakerRules(p, r, "C16.5/handshaker")
+	r.Describe("C16.8/accept-loop", "the accept goroutine of every stream transport never waits for an accepted peer (no read, TLS or SP handshake inside the loop around Accept)")
+	acceptLoopRules(p, r, "C16.8/accept-loop")
+	r.Floor("C16.8/accept-loop", "wire.accept_loops", 3)
+	r.Describe("C16.9/reply-matching", "a reply whose id matches no outstanding request (stale, replayed or forged) is dropped: the id of an answered or abandoned request is forgotten")
+	c03ReplyMatching(p, r, "C16.9/reply-matching")
 	r.Describe("C16.6/handshake-validation", "malformed or mismatched headers never yield a pipe and never look like 'listener closed' to the accept loop")
 	handshakeValidation(p, r, "C16.6/handshake-validation")
 	c16PipeErrors(p, r)
@@ -129,14 +134,19 @@ func recvLimitRules(p *Prog, r *Report, rule string) {
 		if a[1] == "connipc" {
 			maxrx = "recv.conn.maxrx"
 		}
-		dom := map[string][]int64{"$sz": {-2, -1, 0, 1, 2, 3}, maxrx: {-1, 0, 1, 2}}
+		L, _, how := recvLength(p, f)
+		if L == "" {
+			r.Bad(rule, f.Name+"/length-value", f.Pos(), "ANCHOR-MISSING: cannot identify the announced frame length: "+how)
+			continue
+		}
+		dom := map[string][]int64{L: {-2, -1, 0, 1, 2, 3}, maxrx: {-1, 0, 1, 2}}
 		spec := func(env map[string]int64) bool {
-			sz, mx := env["$sz"], env[maxrx]
+			sz, mx := env[L], env[maxrx]
 			return sz < 0 || (mx > 0 && sz > mx)
 		}
 		assume := []string{"~Read(* == nil", "~.Read(* == nil"}
 		_ = assume
-		as := []string{"~Read("}
+		as := []string{"~Read(", "~ReadFull("}
 		// rejection block
 		var rej Sel
 		for _, e := range f.Ev("return", "") {
@@ -159,7 +169,12 @@ func recvLimitRules(p *Prog, r *Report, rule string) {
 			r.OK(rule, key, p.InstrPos(rej[0].In), fmt.Sprintf("equals the specification on all %d assignments (%d path disjuncts)", res.Combos, res.Disjunct))
 		}
 		nm := f.Ev("call", "mangos.NewMessage")
-		rf := f.Ev("call", "io.ReadFull")
+		var rf Sel
+		for _, e := range f.Ev("call", "io.ReadFull") {
+			if strings.HasSuffix(e.Args[1], ".Body") {
+				rf = append(rf, e)
+			}
+		}
 		if len(nm) != 1 || len(rf) != 1 {
 			r.Bad(rule, f.Name+"/alloc-site", f.Pos(), "ANCHOR-MISSING: expected one NewMessage and one io.ReadFull")
 			continue
@@ -175,7 +190,7 @@ func recvLimitRules(p *Prog, r *Report, rule string) {
 			r.OK(rule, key, p.InstrPos(nm[0].In), "allocation reached exactly when the size is accepted")
 		}
 		q.Req(rule, f.Name+"/readfull-after-alloc", rf.DominatedBy(nm), rf.Pos(p), "payload read after allocation", "io.ReadFull not dominated by NewMessage")
-		q.Req(rule, f.Name+"/alloc-arg", nm[0].Args[0] == "int($sz)", nm.Pos(p), "NewMessage(int(sz))", "NewMessage is not sized by the received length: "+nm[0].Args[0])
+		q.Req(rule, f.Name+"/alloc-arg", nm[0].Args[0] == "int("+L+")", nm.Pos(p), "NewMessage(int(sz))", "NewMessage is not sized by the received length: "+nm[0].Args[0])
 	}
 }
 
